@@ -8,15 +8,61 @@ def rand_path(rng, n):
     return tuple(rng.randrange(16) for _ in range(n))
 
 
+class Runner:
+    """executes explore / mark_all_complete calls on real fog objects and records one event per call"""
+
+    def __init__(self, mod):
+        self.fogmod = importlib.import_module("trie.fog")
+        self.exc = importlib.import_module("trie.exceptions")
+        self.fog = self.fogmod.HexaryTrieFog()
+        self.ev = []
+        self.calls = []
+
+    def apply(self, a, p, segs, ps, queries):
+        fog = self.fog
+        self.calls.append([a, list(p), [list(x) for x in segs], [list(x) for x in ps], [list(q) for q in queries]])
+        e = {"a": a, "p": list(p), "segs": [list(x) for x in segs], "ps": [list(x) for x in ps]}
+        before = contents(fog)
+        try:
+            new = fog.explore(p, segs) if a == "explore" else fog.mark_all_complete(ps)
+            e["ok"] = True
+        except Exception:  # noqa
+            new = fog
+            e["ok"] = False
+        st = {"fog": [list(x) for x in contents(new)], "receiver_unchanged": contents(fog) == before,
+              "is_complete": new.is_complete, "nu": [], "nr": []}
+        try:
+            again = self.fogmod.HexaryTrieFog.deserialize(new.serialize())
+            st["roundtrip"] = (again == new) and contents(again) == contents(new)
+        except Exception:  # noqa
+            st["roundtrip"] = False
+        for q in queries:
+            for name, key in (("nearest_unknown", "nu"), ("nearest_right", "nr")):
+                try:
+                    r = {"q": list(q), "exc": "", "p": [int(x) for x in getattr(new, name)(tuple(q))]}
+                except (self.exc.PerfectVisibility, self.exc.FullDirectionalVisibility) as x2:
+                    r = {"q": list(q), "exc": "+".join(n for n, c in (
+                        ("FullDirectionalVisibility", self.exc.FullDirectionalVisibility),
+                        ("PerfectVisibility", self.exc.PerfectVisibility)) if isinstance(x2, c)), "p": []}
+                except Exception as x2:  # noqa
+                    r = {"q": list(q), "exc": "other:" + type(x2).__name__, "p": []}
+                st[key].append(r)
+        e["st"] = st
+        self.ev.append(e)
+        self.fog = new
+
+    def trace(self):
+        return {"ev": self.ev, "plan": {"calls": self.calls}}
+
+
 def gen_trace(mod, rng):
-    fogmod = importlib.import_module("trie.fog")
-    exc = importlib.import_module("trie.exceptions")
-    fog = fogmod.HexaryTrieFog()
-    ev = []
+    r = Runner(mod)
     for _ in range(rng.randint(3, 14)):
-        cur = contents(fog)
+        cur = contents(r.fog)
         x = rng.random()
+        p, segs, ps = (), [], []
         if x < 0.75 or not cur:
+            a = "explore"
             p = rng.choice(cur) if cur and rng.random() < 0.9 else rand_path(rng, rng.choice([0, 1, 2]))
             kind = rng.random()
             if kind < 0.25:
@@ -31,46 +77,27 @@ def gen_trace(mod, rng):
                     segs.append(segs[0] + rand_path(rng, 1))        # nested
                 if rng.random() < 0.2:
                     segs.append(segs[-1])                            # duplicate
-            e = {"a": "explore", "p": list(p), "segs": [list(s) for s in segs], "ps": []}
-            call = lambda: fog.explore(p, segs)  # noqa: E731
         else:
-            k = rng.randint(1, min(3, len(cur)))
-            ps = rng.sample(cur, k)
+            a = "mark"
+            ps = rng.sample(cur, rng.randint(1, min(3, len(cur))))
             if rng.random() < 0.15:
                 ps.append(ps[0])
             if rng.random() < 0.15:
                 ps.append(rand_path(rng, 2))
-            e = {"a": "mark", "p": [], "segs": [], "ps": [list(p) for p in ps]}
-            call = lambda: fog.mark_all_complete(ps)  # noqa: E731
-        before = contents(fog)
-        try:
-            new = call()
-            e["ok"] = True
-        except Exception:  # noqa
-            new = fog
-            e["ok"] = False
-        st = {"fog": [list(p) for p in contents(new)], "receiver_unchanged": contents(fog) == before,
-              "is_complete": new.is_complete, "nu": [], "nr": []}
-        try:
-            again = fogmod.HexaryTrieFog.deserialize(new.serialize())
-            st["roundtrip"] = (again == new) and contents(again) == contents(new)
-        except Exception:  # noqa
-            st["roundtrip"] = False
+        # the queries are planned against the contents the call should produce; any keys will do
         qs = [rand_path(rng, rng.choice([0, 1, 2, 3, 4])) for _ in range(4)] + \
-             [tuple(p) + rand_path(rng, 1) for p in contents(new)[:2]] + [tuple(p) for p in contents(new)[:2]]
-        for q in qs:
-            for name, key in (("nearest_unknown", "nu"), ("nearest_right", "nr")):
-                try:
-                    r = {"q": list(q), "exc": "", "p": [int(x) for x in getattr(new, name)(q)]}
-                except (exc.PerfectVisibility, exc.FullDirectionalVisibility) as x2:
-                    r = {"q": list(q), "exc": type(x2).__name__, "p": []}
-                except Exception as x2:  # noqa
-                    r = {"q": list(q), "exc": "other:" + type(x2).__name__, "p": []}
-                st[key].append(r)
-        e["st"] = st
-        ev.append(e)
-        fog = new
-    return {"ev": ev}
+             [tuple(c) + rand_path(rng, 1) for c in cur[:2]] + [tuple(c) for c in cur[:2]] + \
+             [tuple(p) + tuple(sg) for sg in segs[:2]]
+        r.apply(a, p, segs, ps, qs)
+    return r.trace()
+
+
+def rerun_trace(mod, trace):
+    """re-execute the calls of a recorded trace on the current code (./check --replay)"""
+    r = Runner(mod)
+    for a, p, segs, ps, qs in trace["plan"]["calls"]:
+        r.apply(a, tuple(p), [tuple(x) for x in segs], [tuple(x) for x in ps], [tuple(q) for q in qs])
+    return r.trace()
 
 
 def consts(traces):
